@@ -117,6 +117,27 @@ def build_dataset(data):
         d["timestamp"] = pd.to_datetime(np.array([r[3] for r in rows], dtype=np.int64), unit="ns")
     df = pd.DataFrame(d)
     sp_ = data.get("space")
+    if data.get("build"):
+        # assembled incrementally: entity declarations and interaction chunks in the given order
+        b = DatasetBuilder("c05-batched")
+        pairs = list(zip((r[0] for r in rows), (r[1] for r in rows)))
+        for st in data["build"]:
+            if st["op"] in ("user", "item"):
+                f = fu if st["op"] == "user" else fi
+                vals = [f(x) for x in st["ids"]]
+                arr = np.array(vals, dtype=np.int64) if ids == "int" else vals
+                if st.get("dup"):
+                    b.add_entities(st["op"], arr, duplicates="update")
+                else:
+                    b.add_entities(st["op"], arr)
+            else:
+                want = {tuple(p) for p in st["pairs"]}
+                idx = [k for k, p in enumerate(pairs) if p in want]
+                if not idx:
+                    continue   # every row of this chunk was removed while shrinking
+                b.add_interactions("rating", df.iloc[idx].reset_index(drop=True), entities=["user", "item"],
+                                   missing=st["missing"], default=True)
+        return b.build()
     if sp_ is None:
         return lk.from_interactions_df(df)
     # large identifier space: entity tables declared up front (ids 1..n), few interaction records
@@ -205,8 +226,17 @@ def mk_holdout(h, rec):
 def observe(case):
     _setup()
     data, call = case["data"], case["call"]
-    ds = build_dataset(data)
-    full = ds.interactions().pandas(ids=True)
+    try:
+        ds = build_dataset(data)
+        full = ds.interactions().pandas(ids=True)
+    except AssertionError:
+        raise
+    except Exception as e:
+        if not data.get("build"):
+            raise
+        # assembling the dataset chunk by chunk is part of the input space: a failure is an observation
+        return {"recs": [], "users": [], "error": 9, "msg": f"{type(e).__name__}: {e}"[:160], "build_error": True,
+                "folds": [], "draws": [], "hdraws": []}
     obs = {"recs": _stored(full, data), "users": [_uid(x, data["ids"]) for x in ds.users.ids().tolist()],
            "error": 0, "folds": [], "draws": [], "hdraws": []}
     rec = _recorder(case["seed"])
